@@ -141,6 +141,9 @@ func classify(run *vrun.Run, prop string, c *Case, ex *Exec) {
 	if c.Buffer {
 		run.Cover("api=harfbuzz.Buffer.Shape")
 		run.Cover(fmt.Sprintf("cluster-level=%d", c.ClusterLevel))
+		if ex.AltRan {
+			run.Cover(fmt.Sprintf("api=harfbuzz.Buffer.AddRune/cluster-mode=%d", c.AltClusters))
+		}
 	} else {
 		run.Cover("api=shaping.Shape")
 	}
